@@ -139,7 +139,10 @@ def check(case, ctx):
     k = case["k"]
     if k == "adder":
         w, cin, cout = case["w"], case["cin"], case["cout"]
-        c = need(lib(cg.logic.adder, w, carry_in=cin, carry_out=cout), "adder", f"adder({w},{cin},{cout})")
+        if (w + cin + 2 * cout) % 2:
+            c = need(lib(cg.logic.adder, w, cin, cout), "adder", f"adder({w},{cin},{cout}) [positional: width, carry_in, carry_out]")
+        else:
+            c = need(lib(cg.logic.adder, w, carry_in=cin, carry_out=cout), "adder", f"adder({w},carry_in={cin},carry_out={cout})")
         exp_in = {f"a_{i}" for i in range(w)} | {f"b_{i}" for i in range(w)} | ({"cin"} if cin else set())
         exp_out = {f"out_{i}" for i in range(w)} | ({"cout"} if cout else set())
         if c.inputs() != exp_in or c.outputs() != exp_out:
@@ -266,5 +269,10 @@ def check(case, ctx):
             back = need(lib(cg.utils.bin_to_int, b, lend), "bin_to_int", f"bin_to_int({b},{lend})")
             if back != i:
                 raise Violation("bin|roundtrip", f"bin_to_int(int_to_bin({i},{w},{lend})) = {back}")
+            bl = list(b)
+            keep = list(bl)
+            again = [need(lib(cg.utils.bin_to_int, bl, lend), "bin_to_int", "bin_to_int(list)") for _ in range(2)]
+            if again != [i, i] or bl != keep:
+                raise Violation("bin|list_argument", f"bin_to_int on a list: results {again} for {i}, list afterwards {'changed' if bl != keep else 'unchanged'}")
         return {"nontrivial": w >= 2, "labels": ["bin"]}
     raise Violation("harness", f"unknown case kind {k}")
